@@ -88,3 +88,88 @@ func RunFun(op int, arg uint32, m *dns.Msg) string {
 func GenFun(r *hx.RNG) (int, uint32, *dns.Msg) {
 	return r.Intn(8), hx.Pick(r, []uint32{0, 1, 2, 60, 61, 299, 300, 4294967295}), GenOptMsg(r)
 }
+
+// ---------- Context.Copy ----------
+
+func optOrNone(o *dns.OPT) string {
+	if o == nil {
+		return "None"
+	}
+	return hx.Some(OptCoq(o))
+}
+
+func ctxObs(c *query_context.Context) string {
+	r := "None"
+	if c.R() != nil {
+		r = hx.Some(MsgCoq(c.R()))
+	}
+	return fmt.Sprintf("(CObs %s %s %s %s %s)", MsgCoq(c.Q()), optOrNone(c.ClientOpt()), r, optOrNone(c.RespOpt()), optOrNone(c.UpstreamOpt()))
+}
+
+func optionsCoq(es []dns.EDNS0) string {
+	it := make([]string, len(es))
+	for i, e := range es {
+		it[i] = OptionCoq(e)
+	}
+	return hx.List(it)
+}
+
+// RunCopy renders a Judge.C15.CCopy case: a context built from a client
+// query (and a first response), copied; then one of the two is written to the
+// way plugins write (RespOpt options, TTLs of R in place, query OPT options,
+// SetResponse) and both are observed.
+func RunCopy(r *hx.RNG) string {
+	q := GenQuery(r, QueryOpts{ForceOpt: 1 + r.Intn(2)*r.Intn(2)}).Msg // mostly with OPT
+	if len(q.Question) != 1 {
+		q.Question = []dns.Question{{Name: NameTable[0], Qtype: 1, Qclass: 1}}
+	}
+	q0 := MsgCoq(q)
+	mkResp := func() *dns.Msg {
+		t := GenTemplate(r, ScriptOpts{})
+		m := new(dns.Msg)
+		m.SetReply(q)
+		m.Rcode = t.Rcode & 0xF
+		m.Answer = substName(t.Answer, q.Question[0].Name)
+		m.Extra = substName(t.Extra, q.Question[0].Name)
+		if t.Opt != nil {
+			m.Extra = append(m.Extra, dns.Copy(t.Opt))
+		}
+		return m
+	}
+	orig := query_context.NewContext(q.Copy())
+	pre := "None"
+	if r.Chance(2, 3) {
+		m := mkResp()
+		pre = hx.Some(MsgCoq(m))
+		orig.SetResponse(m)
+	}
+	before := ctxObs(orig)
+	cp := orig.Copy()
+	onCopy := r.Bool()
+	t := orig
+	if onCopy {
+		t = cp
+	}
+	esResp := GenOptions(r, 24)
+	if len(esResp) == 0 {
+		esResp = GenOptions(r, 24)
+	}
+	esQ := GenOptions(r, 0)
+	ttl := hx.Pick(r, []uint32{0, 7, 999})
+	if ro := t.RespOpt(); ro != nil {
+		ro.Option = append(ro.Option, esResp...)
+	}
+	if t.R() != nil && ttl > 0 {
+		dnsutils.SetTTL(t.R(), ttl)
+	}
+	qo := t.QOpt()
+	qo.Option = append(qo.Option, esQ...)
+	m2 := "None"
+	if r.Chance(1, 2) {
+		m := mkResp()
+		m2 = hx.Some(MsgCoq(m))
+		t.SetResponse(m)
+	}
+	return fmt.Sprintf("CCopy %s %s %s %s %s %d %s %s %s %s", q0, pre, hx.Bool(onCopy), optionsCoq(esResp), optionsCoq(esQ),
+		ttl, m2, before, ctxObs(orig), ctxObs(cp))
+}
